@@ -349,4 +349,181 @@ Proof.
            destruct (N.eq_dec h' y) as [->|Hne]; [reflexivity|]. exfalso. apply Hn. apply removeN_In. split; [assumption|congruence].
 Qed.
 
+(* ---------------------------------------------------------------------------------------------- *)
+(* the levels and the DFS                                                                          *)
+
+Fixpoint LevelsOK (D : list N) (Ls : list (list N)) : Prop :=
+  match Ls with
+  | [] => True
+  | L1 :: rest =>
+    (forall x, In x L1 -> exists v, In v votes /\ forall b, In b alts -> ~ In b D -> b <> x -> rk v b < rk v x) /\
+    LevelsOK (D ++ L1) rest
+  end.
+
+Lemma Compat_length res : Compat res -> length res <= length Tgt.
+Proof.
+  intros (P & F & -> & Hp & _). apply Permutation_length in Hp. rewrite app_length, !map_length in *. lia.
+Qed.
+
+(* an unplaced alternative of an untouched block lies on no axis *)
+Lemma UP_unplaced P F A B y :
+  Permutation Tgt (map snd P ++ F) -> Forall RelP P -> In (A, B) (UP P F) -> In y (unpl A B) ->
+  ~ In y (E (map fst P)).
+Proof.
+  intros Hp HR HAB Hy Hin. apply unpl_In in Hy. destruct Hy as [HyB HyA].
+  unfold E in Hin. apply in_flat_map in Hin. destruct Hin as (X & HX & HyX).
+  apply in_map_iff in HX. destruct HX as (q & <- & Hq).
+  rewrite Forall_forall in HR. destruct (HR q Hq) as (S1 & _). pose proof HyX as HyX0. apply S1 in HyX.
+  assert (Hnd : NoDup (concat (map snd P ++ F))) by (eapply Permutation_NoDup; [apply Permutation_concat; exact Hp|exact HT_nd]).
+  unfold UP in HAB. apply in_app_or in HAB. destruct HAB as [H|H].
+  - apply in_split in H. destruct H as (P1 & P2 & ->). apply in_app_or in Hq. destruct Hq as [Hq|[Hq|Hq]].
+    + rewrite map_app in Hnd. simpl in Hnd. rewrite <- app_assoc, concat_app in Hnd. apply NoDup_app_iff in Hnd.
+      destruct Hnd as (_ & _ & Hd). apply (Hd y); [apply in_concat; exists (snd q); split; [now apply in_map|assumption]|].
+      simpl. apply in_or_app. now left.
+    + subst q. cbn [fst] in HyX0. contradiction.
+    + rewrite map_app in Hnd. simpl in Hnd. rewrite <- app_assoc, concat_app in Hnd. apply NoDup_app_iff in Hnd.
+      destruct Hnd as (_ & Hnd & _). simpl in Hnd. apply NoDup_app_iff in Hnd. destruct Hnd as (_ & _ & Hd).
+      apply (Hd y HyB). rewrite concat_app. apply in_or_app. left. apply in_concat. exists (snd q). split; [now apply in_map|assumption].
+  - apply in_map_iff in H. destruct H as (B0 & E0 & HB0). injection E0 as _ ->.
+    rewrite concat_app in Hnd. apply NoDup_app_iff in Hnd. destruct Hnd as (_ & _ & Hd). apply (Hd y).
+    + apply in_concat. exists (snd q). split; [now apply in_map|assumption].
+    + apply in_concat. eauto.
+Qed.
+
+Section Dfs.
+Variable set_order : list N -> list N.
+Hypothesis Hord : forall L, Permutation L (set_order L).
+
+Definition Gacc (acc : option (list paxis)) : Prop := exists r, acc = Some r /\ length r <= length Tgt.
+
+Lemma Gacc_dec acc : Gacc acc \/ (forall s, acc = Some s -> length Tgt < length s).
+Proof.
+  destruct acc as [s|]; [|right; intros s E0; discriminate].
+  destruct (le_lt_dec (length s) (length Tgt)); [left; exists s; auto|right; intros s' E0; injection E0 as <-; assumption].
+Qed.
+
+Lemma inner_pres rest k acc ax : Gacc acc ->
+  Gacc (if shorter ax acc then
+          match dfs set_order rest ax acc k votes with
+          | Some completed => if shorter completed acc then Some completed else acc
+          | None => acc
+          end
+        else acc).
+Proof.
+  intros HG. destruct (shorter ax acc); [|assumption]. destruct (dfs set_order rest ax acc k votes) as [c|]; [|assumption].
+  destruct (shorter c acc) eqn:Es; [|assumption]. destruct HG as (r & -> & Hr). simpl in Es. apply Nat.ltb_lt in Es.
+  exists c. split; [reflexivity|lia].
+Qed.
+
+Lemma limit_ge k acc : length Tgt <= k -> (forall s, acc = Some s -> length Tgt < length s) -> length Tgt <= limit_of k acc.
+Proof. intros Hk H. destruct acc as [s|]; simpl; [|assumption]. specialize (H s eq_refl). lia. Qed.
+
+Lemma dfs_complete : forall Ls D axes sh k,
+  LevelsOK D Ls -> NoDup (concat Ls) -> incl (concat Ls) alts ->
+  (forall a, In a D -> In a (E axes)) -> (forall a, In a alts -> In a (E axes) \/ In a (concat Ls)) ->
+  Compat axes -> length Tgt <= k ->
+  Gacc (dfs set_order Ls axes sh k votes).
+Proof.
+  induction Ls as [|L1 rest IH]; intros D axes sh k HLv Hnd Hincl HD Hcov HC Hk.
+  - simpl. exists axes. split; [reflexivity|now apply Compat_length].
+  - cbn [dfs].
+    set (g := fun a => negb (memN a (flat_map pa_elems axes))).
+    set (new := filter g (set_order L1)). set (later := filter g (flat_map set_order rest)).
+    (* every step preserves Gacc *)
+    assert (Hpres : forall acc ext, Gacc acc ->
+      Gacc (if length ext <=? limit_of k acc then
+              fold_left (fun sh0 ax => if shorter ax sh0 then
+                                         match dfs set_order rest ax sh0 k votes with
+                                         | Some completed => if shorter completed sh0 then Some completed else sh0
+                                         | None => sh0
+                                         end
+                                       else sh0) (extend axes ext votes (limit_of k acc)) acc
+            else acc)).
+    { intros acc ext HG. destruct (length ext <=? limit_of k acc); [|assumption].
+      apply fold_left_inv; [|assumption]. intros ax _ s' Hs'. now apply inner_pres. }
+    destruct (Gacc_dec sh) as [HG|HnG].
+    { apply fold_left_inv; [|assumption]. intros ext _ s' Hs'. now apply Hpres. }
+    (* the compatible extension *)
+    simpl in Hnd, Hincl, HLv. destruct HLv as [HL1 HLrest].
+    apply NoDup_app_iff in Hnd. destruct Hnd as (Hnd1 & Hnd2 & Hdis).
+    assert (Hg : forall a, g a = true <-> ~ In a (E axes)).
+    { intros a. unfold g. rewrite negb_true_iff, memN_false. reflexivity. }
+    assert (Hpermall : Permutation (L1 ++ concat rest) (set_order L1 ++ flat_map set_order rest)).
+    { apply Permutation_app; [apply Hord|]. clear -Hord. induction rest as [|L r IHr]; simpl; [constructor|].
+      apply Permutation_app; [apply Hord|assumption]. }
+    assert (Hnl : NoDup (new ++ later)).
+    { unfold new, later. rewrite <- filter_app. apply NoDup_filter.
+      eapply Permutation_NoDup; [exact Hpermall|]. apply NoDup_app_iff. auto. }
+    assert (Hnl_in : forall a, In a (new ++ later) <-> In a (L1 ++ concat rest) /\ ~ In a (E axes)).
+    { intros a. unfold new, later. rewrite <- filter_app, filter_In, Hg. split; intros [H1 H2]; (split; [|assumption]).
+      - eapply Permutation_in; [apply Permutation_sym; exact Hpermall|exact H1].
+      - eapply Permutation_in; [exact Hpermall|exact H1]. }
+    assert (Hnew_in : forall a, In a new <-> In a L1 /\ ~ In a (E axes)).
+    { intros a. unfold new. rewrite filter_In, Hg. split; intros [H1 H2]; (split; [|assumption]).
+      - eapply Permutation_in; [apply Permutation_sym; apply Hord|exact H1].
+      - eapply Permutation_in; [apply Hord|exact H1]. }
+    destruct HC as (P & F & Eax & HpT & HRP).
+    assert (Hunpl : forall A B y, In (A, B) (UP P F) -> In y (unpl A B) -> In y alts /\ ~ In y (E axes)).
+    { intros A B y HAB Hy. split.
+      - apply UP_snd in HAB. cbn [snd] in HAB. apply HT_in. apply in_concat. exists B. split.
+        + eapply Permutation_in; [apply Permutation_sym; exact HpT|exact HAB].
+        + apply unpl_In in Hy. tauto.
+      - rewrite Eax. eapply UP_unplaced; eauto. }
+    destruct (level_step (length new) new later P F []) as (ext & Hcan & Hlen & Hres).
+    + lia.
+    + simpl. now rewrite app_nil_r.
+    + now rewrite app_nil_r.
+    + exact Hnl.
+    + intros A B y HAB Hy. destruct (Hunpl A B y HAB Hy) as [Hya Hyn]. apply Hnl_in. split; [|assumption].
+      destruct (Hcov y Hya) as [H|H]; [contradiction|exact H].
+    + intros h Hh. apply Hnew_in in Hh. destruct Hh as [HhL Hhn].
+      assert (Hha : In h alts) by (apply Hincl; apply in_or_app; now left).
+      apply HT_cov in Hha. apply in_concat in Hha. destruct Hha as (B & HB & HhB).
+      apply (Permutation_in B HpT) in HB. apply in_app_or in HB. destruct HB as [HB|HB].
+      * apply in_map_iff in HB. destruct HB as (q & <- & Hq). exists (fst q), (snd q). split.
+        -- unfold UP. apply in_or_app. left. now destruct q.
+        -- apply unpl_In. split; [assumption|]. intros Hi. apply Hhn. rewrite Eax. unfold E. apply in_flat_map.
+           exists (fst q). split; [now apply in_map|assumption].
+      * exists pa_empty, B. split; [unfold UP; apply in_or_app; right; now apply in_map|].
+        rewrite unpl_empty. assumption.
+    + intros A B h HAB Hh HhU. apply Hnew_in in Hh. destruct Hh as [HhL _].
+      destruct (HL1 h HhL) as (v & Hv & Hlast). exists v. split; [assumption|]. split; [assumption|].
+      intros u Hu Hne. destruct (Hunpl A B u HAB Hu) as [Hua Hun]. apply Hlast; auto.
+    + (* ext is enumerated, its result is explored *)
+      assert (HlenT : length ext <= length Tgt).
+      { apply Permutation_length in HpT. rewrite app_length, map_length in HpT. lia. }
+      apply (fold_left_hit _ Gacc _ ext).
+      * apply spc_complete; [exact Hnl|exact Hcan|lia|]. pose proof (limit_ge k sh Hk HnG). lia.
+      * intros acc. destruct (Gacc_dec acc) as [HGa|HnGa]; [now apply Hpres|].
+        pose proof (limit_ge k acc Hk HnGa) as Hlim.
+        assert (Etest : (length ext <=? limit_of k acc) = true) by (apply Nat.leb_le; lia). rewrite Etest.
+        destruct (Hres (limit_of k acc) Hlim) as (res & HE & HCres & Hm & Hit).
+        simpl in HE. rewrite <- Eax in HE.
+        apply (fold_left_hit _ Gacc _ res).
+        -- now apply extend_complete.
+        -- intros acc2. destruct (Gacc_dec acc2) as [HG2|HnG2]; [now apply inner_pres|].
+           assert (Hsh : shorter res acc2 = true).
+           { destruct acc2 as [s2|]; [|reflexivity]. simpl. apply Nat.ltb_lt. pose proof (Compat_length res HCres).
+             specialize (HnG2 s2 eq_refl). lia. }
+           rewrite Hsh.
+           assert (Em : E (map fst P ++ map fst (@nil (paxis * list N))) = E axes) by (simpl; now rewrite app_nil_r, Eax).
+           destruct (IH (D ++ L1) res acc2 k HLrest Hnd2) as (c & Ec & Hc); auto.
+           ++ intros a Ha. apply Hincl. apply in_or_app. now right.
+           ++ intros a Ha. apply in_app_or in Ha. destruct Ha as [Ha|Ha].
+              ** apply Hm. rewrite Em. now apply HD.
+              ** destruct (in_dec N.eq_dec a (E axes)) as [Hi|Hn]; [apply Hm; now rewrite Em|].
+                 apply Hit. apply Hnew_in. auto.
+           ++ intros a Ha. destruct (Hcov a Ha) as [H|H]; [left; apply Hm; now rewrite Em|].
+              apply in_app_or in H. destruct H as [H|H]; [|now right]. left.
+              destruct (in_dec N.eq_dec a (E axes)) as [Hi|Hn]; [apply Hm; now rewrite Em|].
+              apply Hit. apply Hnew_in. auto.
+           ++ rewrite Ec.
+              assert (Hsc : shorter c acc2 = true).
+              { destruct acc2 as [s2|]; [|reflexivity]. simpl. apply Nat.ltb_lt. specialize (HnG2 s2 eq_refl). lia. }
+              rewrite Hsc. exists c. auto.
+        -- intros s y Hs. now apply inner_pres.
+      * intros s y Hs. now apply Hpres.
+Qed.
+End Dfs.
+
 End Complete.
